@@ -29,6 +29,8 @@ type flowAux struct {
 	NegPosWant              int // negative-then-positive focus: body bytes due at the mark
 	Events                  []flowEvent
 	UploadBehindEarlyAnswer int
+	EarlyPause              int // the early-answer focus with a pause
+	EarlyShut               int // one early-answered 300 kB upload under a stream window of 0
 	Streams                 map[uint32]string // stream id -> tag (GET downloads)
 	Bodies                  map[string][]byte // expected response bodies
 	Uploads                 map[uint32]int    // stream id -> request body bytes sent (incl. padding)
@@ -145,8 +147,14 @@ func drawFlow(t *rapid.T, check string) *Case {
 	// 2% (C12): eight uploads in a row that the back-end answers early and then hangs up on -
 	// see below; what each of them leaks, if anything, adds up on the connection
 	earlyClose := check == "C12" && !earlyFocus && (drawBool(t, "earlyclose", 2) || osGetenv("VERIF_C12_EARLYCLOSE") != "")
+	// half of them: ONE such upload under a stream window of 0 - the answer cannot leave, the handler
+	// stays blocked in Write with the request body closed under it for as long as the client likes
+	earlyShut := false
 	if earlyClose {
 		iws = 1 << 20 // each answer has to get through before the next upload starts
+		if earlyShut = drawBool(t, "earlyshut", 50) || osGetenv("VERIF_C12_EARLYSHUT") != ""; earlyShut {
+			iws = 0
+		}
 	}
 	mfs := int64(16384)
 	set := []Setting{{4, uint32(iws)}}
@@ -185,6 +193,60 @@ func drawFlow(t *rapid.T, check string) *Case {
 		c := &Case{Plan: p, Metas: []*ClientMeta{{Proto: "h2"}}, Aux: aux, Oracle: oracleC12}
 		c.Summary = "upload of advertised stream window + 1 byte while the handler reads nothing"
 		c.Nontrivial = func(w *World, c *Case) bool { return len(w.Clients[0].Recv) > 0 }
+		return c
+	}
+	if check == "C12" && (drawBool(t, "abandon", 4) || osGetenv("VERIF_C12_ABANDON") != "") {
+		// uploads into a handler that reads a little, closes the request body and stays busy: the
+		// stream is open, its body closed, and everything the client goes on sending - small,
+		// maximally padded DATA frames, hundreds of them - is discarded there and has to be
+		// credited to the connection window with its padding
+		k := rapid.IntRange(1, 4).Draw(t, "abandonstreams")
+		if iws < 100 {
+			// the short answers have to get through
+			write(SettingsFrame(Setting{4, 1 << 20}))
+			aux.Events = append(aux.Events, flowEvent{Kind: "settings", IWS: 1 << 20, MFS: -1, Write: nwrite - 1})
+		}
+		p.LocalAbandon = map[string]AbandonPlan{}
+		id := uint32(1)
+		for i := 0; i < k; i++ {
+			tag := fmt.Sprintf("c0-a%d", i)
+			first := rapid.IntRange(1, 3000).Draw(t, "abandonfirst")
+			p.LocalAbandon[tag] = AbandonPlan{ReadBytes: rapid.IntRange(0, first).Draw(t, "abandonread"), HoldMS: rapid.IntRange(1, 5000).Draw(t, "abandonhold")}
+			fields := [][2]string{{":method", "POST"}, {":scheme", "https"}, {":authority", "fc.verif.test"}, {":path", "/" + tag}, {"x-tag", tag}}
+			fs := HeadersFrames(id, enc.Block(fields), false, nil, -1, nil)
+			f0 := DataFrame(id, bodyBytes(tag, first), false, -1)
+			sent := len(f0.Payload)
+			write(append(fs, f0)...)
+			steps = append(steps, Step{Kind: "h2headers", Streams: []uint32{id}})
+			nf := rapid.IntRange(80, 400).Draw(t, "abandonframes")
+			var storm []Frame
+			for j := 0; j < nf; j++ {
+				f := DataFrame(id, bodyBytes(tag, rapid.IntRange(0, 64).Draw(t, "abandondsz")), j == nf-1 && drawBool(t, "abandonend", 50), rapid.IntRange(0, 255).Draw(t, "abandonpad"))
+				sent += len(f.Payload)
+				storm = append(storm, f)
+			}
+			cut := rapid.IntRange(1, len(storm)).Draw(t, "abandoncut")
+			write(storm[:cut]...)
+			if cut < len(storm) {
+				write(storm[cut:]...)
+			}
+			steps = append(steps, Step{Kind: "h2await", Streams: []uint32{id}})
+			aux.Streams[id] = tag
+			aux.Bodies[tag] = []byte("abandoned:" + tag)
+			aux.Uploads[id] = sent
+			aux.UploadTags[id] = tag
+			id += 2
+		}
+		aux.NStreams = k
+		steps = append(steps, Step{Kind: "write", Pieces: [][]byte{FramesBytes(PingFrame(false, [8]byte{0xfc}))}, WhenQuiet: true})
+		steps = append(steps, Step{Kind: "h2ping", WhenQuiet: true}, Step{Kind: "close"})
+		cp.Steps = steps
+		p.Clients = []*ClientPlan{cp}
+		p.Fences = drawBool(t, "fences", 20)
+		p.Tape, p.Tail = drawTape(t, 64)
+		c := &Case{Plan: p, Metas: []*ClientMeta{{Proto: "h2"}}, Aux: aux, Oracle: oracleC12}
+		c.Summary = fmt.Sprintf("abandoned bodies: %d uploads into a handler (stub of a library user's) that closes the request body and stays busy while 80-400 padded DATA frames arrive on the open stream", k)
+		c.Nontrivial = func(w *World, c *Case) bool { return len(w.Clients[0].Recv) > 3 }
 		return c
 	}
 	if check == "C12" && drawBool(t, "abortstorm", 5) {
@@ -228,6 +290,9 @@ func drawFlow(t *rapid.T, check string) *Case {
 	}
 	if earlyClose {
 		n = 8
+		if earlyShut {
+			n = 1
+		}
 	}
 	aux.NStreams = n
 	next := uint32(1)
@@ -246,7 +311,11 @@ func drawFlow(t *rapid.T, check string) *Case {
 			// body while the response is still streaming to the client - the stream is open,
 			// its handler has abandoned the body - and the rest of the upload, small maximally
 			// padded DATA frames sent once the response has begun to arrive, is discarded there
-			body := bodyBytes(tag, 300000+6400)
+			tail := 6400
+			if earlyShut {
+				tail = 64 * rapid.IntRange(100, 400).Draw(t, "earlyshutframes")
+			}
+			body := bodyBytes(tag, 300000+tail)
 			fields := [][2]string{{":method", "POST"}, {":scheme", "https"}, {":authority", "fc.verif.test"}, {":path", "/" + tag}, {"x-tag", tag}}
 			fs0 := HeadersFrames(id, enc.Block(fields), false, nil, -1, nil)
 			sent := 0
@@ -262,6 +331,11 @@ func drawFlow(t *rapid.T, check string) *Case {
 				fs1 = append(fs1, f)
 			}
 			early := bodyBytes("early-"+tag, []int{20000, 150000}[rapid.IntRange(0, 1).Draw(t, "earlyclosesz")])
+			if earlyShut {
+				// short enough for the proxy to have read it to its end before it blocks on the
+				// client's window: only then is its transport done with the back-end connection
+				early = bodyBytes("early-"+tag, []int{1, 100, 3000, 20000}[rapid.IntRange(0, 3).Draw(t, "earlyshutsz")])
+			}
 			// (the client's stream window must let the answer through, or the next upload never starts)
 			totalDown += len(early)
 			p.Backend.Resp[tag] = &RespPlan{Status: 200, Body: early, NoRead: true}
@@ -273,9 +347,16 @@ func drawFlow(t *rapid.T, check string) *Case {
 			aux.UploadBehindEarlyAnswer++
 			write(fs0...)
 			steps = append(steps, Step{Kind: "h2headers", Streams: []uint32{id}})
+			if earlyShut {
+				// the back-end's hang-up reaches the proxy, whose transport closes the request body
+				steps = append(steps, Step{Kind: "sleep", DelayMS: rapid.IntRange(1, 300).Draw(t, "earlyshutpause")})
+				aux.EarlyShut++
+			}
 			write(fs1...)
 			// one after the other (the raw client does not pace itself by the server's windows)
-			steps = append(steps, Step{Kind: "h2await", Streams: []uint32{id}})
+			if !earlyShut {
+				steps = append(steps, Step{Kind: "h2await", Streams: []uint32{id}})
+			}
 			continue
 		}
 		if (earlyFocus && i == 0) || drawBool(t, "upload", 35) {
@@ -374,6 +455,22 @@ func drawFlow(t *rapid.T, check string) *Case {
 				aux.Bodies[tag] = []byte("ok:" + tag)
 			}
 			aux.Streams[id] = tag
+			if earlyFocus && i == 0 && len(aux.Bodies[tag]) <= 1000 && len(fs) > 3 {
+				// a short early answer that the proxy has read to its end while the client's stream
+				// window (0) keeps it from being passed on: the outbound transport, done with the
+				// response, gives the unfinished request write a moment, then drops the back-end
+				// connection and closes the request body - the handler stays blocked in Write, the
+				// stream stays open for as long as the client likes.  The client pauses for longer
+				// than that moment and then sends the rest of its maximally padded upload: hundreds
+				// of frames are discarded in that state, each to be credited with its padding.
+				cut := rapid.IntRange(2, min(len(fs)-1, 12)).Draw(t, "earlycut")
+				write(fs[:cut]...)
+				steps = append(steps, Step{Kind: "h2headers", Streams: []uint32{id}}, Step{Kind: "sleep", DelayMS: rapid.IntRange(60, 400).Draw(t, "earlypause")})
+				write(fs[cut:]...)
+				aux.UploadBehindEarlyAnswer++
+				aux.EarlyPause++
+				continue
+			}
 			if aux.EarlyAnswer[tag] && len(aux.Bodies[tag]) > 1000 && len(fs) > 3 {
 				// the client goes on uploading after the early answer has begun to arrive: the
 				// rest of the body meets a stream that is open while its handler has closed
@@ -868,7 +965,7 @@ func init() {
 		}
 		return drawFlow(t, "C12")
 	},
-		Rule: "a raw-frame client opens 1-8 (5%: 20-120) streams: downloads of 0..300000 bytes (boundary sizes 16384/16385/65535/65536, streamed by the back-end in chunks; 20% without Content-Length and with the end of the response held back until the controller releases it, so that END_STREAM travels in an empty DATA frame queued after further window events) and uploads of 0..120000 bytes in DATA frames of seeded sizes with padding (20% answered by the back-end without reading the body; 15% longer than their declared content-length, so that the server resets the stream and has to discard what follows), with SETTINGS_INITIAL_WINDOW_SIZE in {0,1,100,16384,65535,2^20} and MAX_FRAME_SIZE variants; then 0-10 window events: connection / stream WINDOW_UPDATEs of 1..2^20, further small downloads opened in between, INITIAL_WINDOW_SIZE changes up and down (driving open windows negative), MAX_FRAME_SIZE changes, client RST_STREAM mid-body; final grants that suffice for everything; 5%: a connection WINDOW_UPDATE overflowing 2^31-1; 3%: a stream window used up, driven negative by SETTINGS, reopened by a WINDOW_UPDATE, then 2 s of silence at whose end exactly the permitted bytes must have arrived. All three write schedulers, fences (incl. the write fence that keeps a frame write in flight, 30% of runs), response segmentation by draw. Oracle refwin: every DATA frame within the connection window, the stream window (largest INITIAL_WINDOW_SIZE among the last acknowledged and all later written SETTINGS, plus every WINDOW_UPDATE written before the frame was received) and the maximum frame size; all bodies complete and byte-identical after the final grants; overflow rejected with FLOW_CONTROL_ERROR; connection-level credit not returned after all uploads are consumed or discarded <= 16 KiB and never negative. Non-trivial: the server sent DATA. Distinct: distinct controller action-label sequences."})
+		Rule: "a raw-frame client opens 1-8 (5%: 20-120) streams: downloads of 0..300000 bytes (boundary sizes 16384/16385/65535/65536, streamed by the back-end in chunks; 20% without Content-Length and with the end of the response held back until the controller releases it, so that END_STREAM travels in an empty DATA frame queued after further window events) and uploads of 0..120000 bytes in DATA frames of seeded sizes with padding (20% answered by the back-end without reading the body; 15% longer than their declared content-length, so that the server resets the stream and has to discard what follows), with SETTINGS_INITIAL_WINDOW_SIZE in {0,1,100,16384,65535,2^20} and MAX_FRAME_SIZE variants; then 0-10 window events: connection / stream WINDOW_UPDATEs of 1..2^20, further small downloads opened in between, INITIAL_WINDOW_SIZE changes up and down (driving open windows negative), MAX_FRAME_SIZE changes, client RST_STREAM mid-body; final grants that suffice for everything; 5%: a connection WINDOW_UPDATE overflowing 2^31-1; 3%: a stream window used up, driven negative by SETTINGS, reopened by a WINDOW_UPDATE, then 2 s of silence at whose end exactly the permitted bytes must have arrived. 4%: 1-4 uploads into a stub of a library user's handler that reads a little, closes the request body and stays busy while 80-400 DATA frames of 0-64 octets with up to 255 octets of padding arrive on the still open stream (with go1.26's ReverseProxy the inbound body is never closed before the handler returns, so the proxy's own handler cannot reach that state): discarded data is credited to the connection with its padding. 1% : one 300 kB upload answered early by a back-end that hangs up, under a stream window of 0. All three write schedulers, fences (incl. the write fence that keeps a frame write in flight, 30% of runs), response segmentation by draw. Oracle refwin: every DATA frame within the connection window, the stream window (largest INITIAL_WINDOW_SIZE among the last acknowledged and all later written SETTINGS, plus every WINDOW_UPDATE written before the frame was received) and the maximum frame size; all bodies complete and byte-identical after the final grants; overflow rejected with FLOW_CONTROL_ERROR; connection-level credit not returned after all uploads are consumed or discarded <= 16 KiB and never negative. Non-trivial: the server sent DATA. Distinct: distinct controller action-label sequences."})
 	register(&CheckDef{ID: "C20", Level: "exploration", Engine: "A", Draw: func(t *rapid.T) *Case { return drawFlow(t, "C20") },
 		Rule: "in-situ monitor: the C12 workload (bodies under client-controlled windows, RST_STREAM mid-body, INITIAL_WINDOW_SIZE and MAX_FRAME_SIZE changes) plus PRIORITY frames with arbitrary, circular and exclusive dependencies on open, idle and closed streams (and, with 20-120 streams, a dependency chain over all of them whose head is then made dependent on its far end), against round-robin / priority (seeded MaxClosedNodesInTree, MaxIdleNodesInTree, ThrottleOutOfOrderWrites) / random schedulers installed through http2.Server.NewWriteScheduler behind a monitor that checks every OpenStream / CloseStream / AdjustStream / Push / Pop against a list-based model: each pushed frame popped exactly once unless its stream was closed first, per-stream order, control before stream data, popped DATA pieces <= stream window, connection window and peer's maximum frame size (read before the pop through an injected accessor) and concatenating to the original, Pop()==false only when nothing is sendable, priority tree rooted at 0 / acyclic / links consistent after every operation. Operation sequences are those the serve loop produces under simulated schedules, not arbitrary interface-level sequences. Non-trivial: the server sent DATA. Distinct: distinct controller action-label sequences."})
 }
